@@ -185,9 +185,9 @@ func c19Facts(c *Ctx) {
 		rs := bad[k]
 		v := k[:strings.Index(k, "/")]
 		lock := ""
-		for _, x := range c19Vars {
-			if x.Name == v {
-				lock = x.Lock
+		for i, x := range c19Vars {
+			if x.Name == v && c19LastScan != nil {
+				lock = c19LastScan.nominal[i]
 			}
 		}
 		c.Fail("c19/unlocked-access/"+k, "shared variable "+v+" is accessed in "+k[len(v)+1:]+" without its lock ("+lock+") on "+fmt.Sprint(len(rs))+" entry path(s); fact-table rows with lockHeld=false: "+strings.Join(rs, " ; "), map[string]interface{}{"rows": rs})
@@ -246,9 +246,11 @@ func c19GenFacts(c *Ctx) {
   from the entry point ` + "`entry`" + ` (public engine call, goroutine / timer root ` + "`go:`/`timer:`" + `, store API
   ` + "`store:`" + `, other exported accessor called from outside ` + "`ext:`" + `, ` + "`-`" + ` = reached from no entry point:
   constructor / start-up code) the variable's lock is held at the access (held = true) or not.
-  The variable's lock: sigCache, lastSig -> DPoVP.chainLock; UnConfirmBlocks, LastConfirm, FileQueue.Offset
-  -> ChainDatabase.RW; FileQueue.Index -> FileQueue.IndexRW; termList -> Manager.lock; evilDeputies ->
-  Manager.edLock; ForkManager.head -> accessed through sync/atomic.Value Load/Store only.
+  The variable's nominal lock (harness/hx/c19_scan.go c19Vars): sigCache -> consensus.sigCacheMu, lastSig ->
+  Confirmer.lastSigLock, FileQueue.Offset -> FileQueue.putLock (each falls back to DPoVP.chainLock / ChainDatabase.RW
+  on a tree without the dedicated mutex); UnConfirmBlocks, LastConfirm -> ChainDatabase.RW; FileQueue.Index ->
+  FileQueue.IndexRW; termList -> Manager.lock; evilDeputies -> Manager.edLock; ForkManager.head -> accessed through
+  sync/atomic.Value Load/Store only.  held = the access holds the nominal lock or the variable's guard.
 -/
 namespace LemoModel.LockFacts
 
